@@ -668,6 +668,12 @@ func runLayout(cfg *PropConfig, w *World) *FuncReport {
 	anchor("route-not", `if\s*\(!!\(ctx->route_state & ROUTE_STATE_GOOD_SUBRULE\)\s*==\s*match_not\)`, "route(): a sub-rule fails iff hit == not")
 	anchor("route-lpm-prefixlen", `ctx->lpm_key_daddr\.prefixlen\s*=\s*IPV6_BYTE_LENGTH \* 8;`, "route(): addresses are looked up as /128 keys")
 
+	// the two generated files (Go constants, C #defines) are what the generator in the tree writes today from
+	// the shared spec: the generator is run in a scratch module and its output compared byte for byte
+	for _, g := range checkGenerated() {
+		add("generated:"+g.name, "checked-in "+g.name+" equals the output of cmd/generators/gen_ebpf_sync on common/consts/ebpf_sync_spec.json", g.ok, g.detail)
+	}
+
 	rep.Notes = append(rep.Notes, fmt.Sprintf("%d mirrored records, %d shared constants compared; C side: %d declarations extracted from tproxy.c + ebpf_sync_defs.h", len(pairs), len(cps)+1, len(needed)))
 	rep.Assumptions = append(rep.Assumptions,
 		"layout engine: kernel headers are absent; __u8/__u16/__u32/__u64/__be*/bool are supplied by a fixed typedef prelude (assumed equal to the kernel's definitions)",
@@ -843,4 +849,101 @@ func astToType(e ast.Expr, pkg *types.Package) (types.Type, error) {
 
 func formatNode(b *bytes.Buffer, fset *token.FileSet, n ast.Node) error {
 	return printer.Fprint(b, fset, n)
+}
+
+type genResult struct {
+	name   string
+	ok     bool
+	detail string
+}
+
+// checkGenerated runs the repository's generator on the repository's spec in a scratch module and compares
+// what it writes with the checked-in files.
+func checkGenerated() []genResult {
+	files := []string{"common/consts/ebpf_generated.go", "control/kern/ebpf_sync_defs.h"}
+	bad := func(msg string) []genResult {
+		var rs []genResult
+		for _, f := range files {
+			rs = append(rs, genResult{f, false, msg})
+		}
+		return rs
+	}
+	tmp, err := os.MkdirTemp("", "govc-gen-")
+	if err != nil {
+		return bad(err.Error())
+	}
+	defer os.RemoveAll(tmp)
+	genDir := "cmd/generators/gen_ebpf_sync"
+	for _, d := range []string{"common/consts", "control/kern", genDir} {
+		os.MkdirAll(filepath.Join(tmp, d), 0o755)
+	}
+	os.WriteFile(filepath.Join(tmp, "go.mod"), []byte("module scratch\n\ngo 1.22\n"), 0o644)
+	cp := func(rel string) error {
+		b, err := os.ReadFile(filepath.Join(repoDir, rel))
+		if err != nil {
+			return err
+		}
+		return os.WriteFile(filepath.Join(tmp, rel), b, 0o644)
+	}
+	if err := cp("common/consts/ebpf_sync_spec.json"); err != nil {
+		return bad(err.Error())
+	}
+	ents, err := os.ReadDir(filepath.Join(repoDir, genDir))
+	if err != nil {
+		return bad(err.Error())
+	}
+	for _, en := range ents {
+		if strings.HasSuffix(en.Name(), ".go") && !strings.HasSuffix(en.Name(), "_test.go") {
+			if err := cp(filepath.Join(genDir, en.Name())); err != nil {
+				return bad(err.Error())
+			}
+		}
+	}
+	cmd := exec.Command("go", "run", "./"+genDir)
+	cmd.Dir = tmp
+	cmd.Env = append(os.Environ(), "GOFLAGS=-mod=mod", "GOWORK=off")
+	if out, err := cmd.CombinedOutput(); err != nil {
+		return bad("the generator does not run: " + err.Error() + ": " + firstLines(string(out), 5))
+	}
+	var rs []genResult
+	for _, f := range files {
+		want, err1 := os.ReadFile(filepath.Join(tmp, f))
+		have, err2 := os.ReadFile(filepath.Join(repoDir, f))
+		switch {
+		case err1 != nil:
+			rs = append(rs, genResult{f, false, "the generator wrote no such file: " + err1.Error()})
+		case err2 != nil:
+			rs = append(rs, genResult{f, false, err2.Error()})
+		case !bytes.Equal(want, have):
+			rs = append(rs, genResult{f, false, "generator output differs from the checked-in file: " + firstDiff(string(want), string(have))})
+		default:
+			rs = append(rs, genResult{f, true, ""})
+		}
+	}
+	return rs
+}
+
+func firstLines(s string, n int) string {
+	ls := strings.Split(strings.TrimSpace(s), "\n")
+	if len(ls) > n {
+		ls = ls[:n]
+	}
+	return strings.Join(ls, " | ")
+}
+
+func firstDiff(gen, have string) string {
+	a, b := strings.Split(gen, "\n"), strings.Split(have, "\n")
+	for i := 0; i < len(a) || i < len(b); i++ {
+		var x, y string
+		if i < len(a) {
+			x = a[i]
+		}
+		if i < len(b) {
+			y = b[i]
+		}
+		if x != y {
+			return fmt.Sprintf("line %d: generator writes %q, file has %q", i+1, x, y)
+		}
+	}
+	return "(no line differs)"
 }
